@@ -68,6 +68,36 @@ Theorem C19_events_complete_partial :
 Proof. exact events_complete_partial. Qed.
 Print Assumptions C19_events_complete_partial.
 
+(** Completeness, partial, from a condition on the graph and a condition on the program: if the two
+    successors of a node are never closures of the same generator, then on every run that stays on
+    the graph (each closure returned is the one of the running node's tnext or fnext) the tracked
+    node is the running node at every consultation, and every flagged node that executes is
+    reported, in execution order. *)
+Theorem C19_events_complete_static_partial :
+  forall (St : Type) (mstep : St -> option (St * act)) (g : cfg) (fuel : nat) (ps : St) (rq : list request),
+    distinct_succ g ->
+    no_terminate rq ->
+    d_session_oncfg mstep g fuel ps rq = true ->
+    (forall m t, In (m, t) (ses_heads (d_session mstep g fuel ps rq)) -> m = t)
+    /\ breaks (ses_events (d_session mstep g fuel ps rq)) = g_breaks g (pl_visited (p_session mstep fuel ps)).
+Proof. exact events_complete_static. Qed.
+Print Assumptions C19_events_complete_static_partial.
+
+Theorem C19_static_inhabited :
+  distinct_succ w_ok
+  /\ d_session_oncfg replay_step w_ok 10 w_ok_run w_ok_reqs = true
+  /\ breaks (ses_events (d_session replay_step w_ok 10 w_ok_run w_ok_reqs)) = [Some 0; Some 2].
+Proof. exact static_inhabited. Qed.
+Print Assumptions C19_static_inhabited.
+
+(** The refutation witnesses below lie outside: one violates the condition on the graph, the other
+    leaves the graph (forwarding closure on the back edge). *)
+Theorem C19_witnesses_outside_side_conditions :
+  ~ distinct_succ w_if
+  /\ d_session_oncfg replay_step w_loop 20 w_loop_run [] = false.
+Proof. exact witnesses_outside. Qed.
+Print Assumptions C19_witnesses_outside_side_conditions.
+
 (** One tracking step is exact when the operation returned the closure of its tnext, or of its
     fnext while the tnext is the closure of another generator ... *)
 Theorem C19_track_exact_partial :
